@@ -359,8 +359,10 @@ func (r *Reader) read(iop *IOPlan) ([]byte, error) {
 					bufMetaLen := bytesRead
 					// read enough amount of records
 					if bytesLeftToFill < 0 {
+						// this file filled only what was still free at the front of the buffer;
+						// the rest of the buffer holds index records of later files
+						bufMetaLen = bytesLeftToFill + bytesRead
 						bytesLeftToFill = 0
-						bufMetaLen = int32(len(resultBuffer))
 					}
 					bufMeta = append(bufMeta, bufferMeta{
 						FullPath:  fp[i].FullPath,
